@@ -232,3 +232,8 @@ def run(chk, repo):
     from rules.shared import kwname
     chk.clauses.append('C14.kw (shared R-THREAD) parameters handed on as keyword arguments keep their name: no `a=b` between two parameters of one function')
     kwname(chk, repo, 'C14.kw', ['parser.VEPParser', 'parser.REDItoolsParser', 'cli.parse_vep', 'cli.parse_reditools'], floor=0)
+    from rules.shared import no_clamped_conversion
+    chk.clauses.append('C14.f (R-TAINT) the genomic positions parseVEP / parseREDItools convert to gene coordinates are the reported ones, never clamped to the gene or transcript: events touching the boundary are rejected, not shortened')
+    no_clamped_conversion(chk, repo, 'C14.f', ['parser.VEPParser:VEPRecord.convert_to_variant_record', 'parser.REDItoolsParser:REDItoolsRecord.convert_to_variant_records'])
+
+
